@@ -179,6 +179,7 @@ fn gen_dependency_program(r: &mut Rng) -> String {
 fn analysis_case(cfg: &Config, tmp: &std::path::Path, idx: u64, r: &mut Rng, st: &mut Stats) {
     let text = match r.below(5) {
         0 | 1 => gen_dependency_program(r),
+        2 if r.chance(1, 4) => format!("{}\n{}", crate::kit::generate::gen_ground_cycle(r, &ProgOpts::default()), gen_program(r, &ProgOpts::default())),
         2 => gen_program(r, &ProgOpts::default()),
         3 => {
             let preds: Vec<(String, usize)> = vec![("p".into(), 1), ("q".into(), 2), ("s".into(), 0)];
